@@ -26,19 +26,35 @@ def stdio_module():
     return sys.modules[MODNAME]
 
 
+STEP = 1.0 / 1024  # one scheduling step of the slow pipe, in virtual seconds
+
+
 class FakeStdin:
-    def __init__(self):
+    """The child's stdin as the client sees it (anyio's process stdin: `write()` appends the bytes
+    to the pipe/transport buffer as a unit, then `drain()` may suspend the caller).
+
+    `drain_bytes` = 0: the child reads at once (`send` only yields to the loop).
+    `drain_bytes` = N: the child is slow: it takes N bytes per scheduling step, so a `send()` of S
+    bytes suspends its caller for ceil(S/N) steps of virtual time AFTER its bytes were appended -
+    other tasks (the stdout reader) run and may write to the same pipe meanwhile."""
+
+    def __init__(self, drain_bytes: int = 0):
         self.sends: list[bytes] = []
         self.closed = False
         self.sends_at_close = None
+        self.drain_bytes = drain_bytes
 
     async def send(self, data):
         import anyio
 
-        await anyio.lowlevel.checkpoint()
         if self.closed:
             raise anyio.ClosedResourceError
-        self.sends.append(bytes(data))
+        data = bytes(data)
+        self.sends.append(data)
+        if self.drain_bytes:
+            await anyio.sleep(-(-len(data) // self.drain_bytes) * STEP)
+        else:
+            await anyio.lowlevel.checkpoint()
 
     async def aclose(self):
         if not self.closed:
@@ -68,6 +84,8 @@ class FakeStdout:
                 return val
             if kind == "set":
                 self.proc.client.set_protocol_version(val)
+            if kind == "sleep":  # the child is busy for `val` scheduling steps before its next output
+                await anyio.sleep(val * STEP)
         self.proc.eof = True
         return None
 
@@ -274,6 +292,65 @@ async def _writer_case(mod, holder, case, build):
     return {"bytes": b"".join(sends).hex(), "sends": len(sends), "before_close": before_close, "after_close": after}
 
 
+async def _duplex_case(mod, holder, case, build):
+    """Both directions at once.  case: {"set": version (optional), "items": [outbound specs],
+    "drain": bytes the child takes from stdin per scheduling step (0 = at once),
+    "stdout": [{"sleep": steps} | {"c": hex}], "close": bool}.
+    Observation: the `send()`s the child's stdin received, in order, and the close flag."""
+    import anyio
+
+    script = []
+    for e in case.get("stdout", []):
+        if "c" in e:
+            script.append(("chunk", bytes.fromhex(e["c"])))
+        elif "sleep" in e:
+            script.append(("sleep", e["sleep"]))
+    proc = FakeProcess(script)
+    proc.stdin.drain_bytes = int(case.get("drain", 0))
+    # after the script the child's stdout stays open (it is still running)
+    never = anyio.Event()
+    inner_next = proc.stdout._next
+
+    async def _next_then_wait():
+        c = await inner_next()
+        if c is None:
+            await never.wait()
+        return c
+
+    proc.stdout._next = _next_then_wait  # type: ignore[method-assign]
+    holder["proc"] = proc
+    from chuk_mcp.transports.stdio.parameters import StdioParameters
+
+    client = mod.StdioClient(StdioParameters(command="verif-fake-child", args=[]))
+    proc.client = client
+    delivered = []
+    try:
+        async with client:
+            if "set" in case:
+                client.set_protocol_version(case["set"])
+            read, write = client.get_streams()
+
+            async def consume():
+                async for m in read:
+                    delivered.append(m)
+
+            async with anyio.create_task_group() as tg:
+                tg.start_soon(consume)
+                for it in case["items"]:
+                    await write.send(build(it))
+                await anyio.sleep(120.0)  # virtual: everything that can happen has happened
+                before_close = {"closed": proc.stdin.closed, "n": len(proc.stdin.sends)}
+                if case.get("close", True):
+                    await write.aclose()
+                    await anyio.sleep(60.0)
+                after = {"closed": proc.stdin.closed, "sends_at_close": proc.stdin.sends_at_close}
+                sends = list(proc.stdin.sends)
+                tg.cancel_scope.cancel()
+    except Exception as ex:  # noqa
+        return {"harness_error": type(ex).__name__}
+    return {"sends": sends, "before_close": before_close, "after_close": after, "delivered": len(delivered)}
+
+
 def _patched(mod, holder):
     import anyio
 
@@ -301,6 +378,23 @@ def run_reader_cases(cases):
         out = []
         for c in cases:
             out.append(await _reader_case(mod, holder, c))
+        return out
+
+    saved = _patched(mod, holder)
+    try:
+        return vloop.run(main)
+    finally:
+        _restore(saved)
+
+
+def run_duplex_cases(cases, build):
+    mod = stdio_module()
+    holder = {}
+
+    async def main():
+        out = []
+        for c in cases:
+            out.append(await _duplex_case(mod, holder, c, build))
         return out
 
     saved = _patched(mod, holder)
